@@ -120,8 +120,8 @@ def run_case(case):
 
 
 def health(classes, n, tier):
-    need = {"truth_empty": 0.2, "truth_nonempty": 0.2, "intersection_checked": 0.08, "product_nonempty": 0.02,
-            "has_consumption": 0.3, "several_consumptions_same_index_and_variable": 0.02, "kinds:4": 0.1}
+    need = {"truth_empty": 0.08, "truth_nonempty": 0.08, "intersection_checked": 0.032, "product_nonempty": 0.008,
+            "has_consumption": 0.12, "several_consumptions_same_index_and_variable": 0.008, "kinds:4": 0.04}
     for k, frac in need.items():
         if classes.get(k, 0) < frac * n:
             return "class %s too rare: %d of %d" % (k, classes.get(k, 0), n)
